@@ -33,6 +33,22 @@ WARM_MODEL = {
 }
 
 
+_TAIL = '\n\n__version__ = "V1"\n__xml_namespace__ = "https://dummy.com"\n'
+CTOR_MISMATCH = (
+    "from icontract import DBC\n\n\nclass Something(DBC):\n    text: str\n    alpha_value: int\n    beta_value: int\n    gamma_value: int\n    delta_value: int\n\n"
+    "    def __init__(self, text: str, alpha_value: int, beta_value: int, gamma_value: int, delta_value: int, not_a_property: int) -> None:\n"
+    "        self.text = text\n        self.alpha_value = alpha_value\n        self.beta_value = beta_value\n        self.gamma_value = gamma_value\n        self.delta_value = delta_value\n" + _TAIL
+)
+VALUE_DATA_TYPE_CLASS = (
+    "from typing import Optional\n\nfrom icontract import DBC\n\n\nclass Value_data_type(DBC):\n    value: str\n\n    def __init__(self, value: str) -> None:\n        self.value = value\n\n\n"
+    "class Something(DBC):\n    data_type: Optional[Value_data_type]\n\n    def __init__(self, data_type: Optional[Value_data_type] = None) -> None:\n        self.data_type = data_type\n" + _TAIL
+)
+VALUE_DATA_TYPE_ENUM = (
+    "from enum import Enum\nfrom typing import Optional\n\nfrom icontract import DBC\n\n\nclass Value_data_type(Enum):\n    First = \"first\"\n    Second = \"second\"\n\n\n"
+    "class Something(DBC):\n    data_type: Optional[Value_data_type]\n\n    def __init__(self, data_type: Optional[Value_data_type] = None) -> None:\n        self.data_type = data_type\n" + _TAIL
+)
+
+
 def sha(b: bytes) -> str:
     return hashlib.sha256(b).hexdigest()[:20]
 
@@ -59,6 +75,14 @@ def histories(tier: str):
         sn["another bad-name.txt"] = "y"
         sn["Zzz/yet another.txt"] = "z"
         out.append(("bad_snippet_names", small, t, sn))
+    # a model the FRONT END rejects with a message that lists names (constructor arguments that are not properties)
+    for t in (["jsonschema", "python"] if tier == "quick" else genlib.TARGETS):
+        out.append(("ctor_arg_not_property", CTOR_MISMATCH, t, mm.default_snippets(t)))
+    # names that are hard-wired in a generator: the XSD generator treats ``Value_data_type`` specially and reports an
+    # error when it is not a constrained primitive of str
+    for kind, text in (("class", VALUE_DATA_TYPE_CLASS), ("enum", VALUE_DATA_TYPE_ENUM)):
+        for t in (["xsd"] if tier == "quick" else ["xsd", "jsonschema", "python", "java"]):
+            out.append(("value_data_type_" + kind, text, t, mm.default_snippets(t)))
     names = ["constrained_primitives"] if tier == "quick" else ["constrained_primitives", "deep_class_hierarchy", "list_of_classes", "list_of_enums"]
     for name, text, snippets in c22_models.repo_models(pathlib.Path(REPO), names):
         for t in genlib.TARGETS:
